@@ -930,7 +930,7 @@ fn record(o: &Opts) -> Res<()> {
     let parts: Vec<String> = o.opt("--part").map(|p| p.split(',').map(|s| s.to_string()).collect()).unwrap_or_else(|| vec!["mix".into(), "mutate".into(), "opaque".into()]);
     let mut rng = o.rng(0xC20);
     let mut mems = Mems { reused: MemoryInstance::new() };
-    let ntx = if thorough { 700 } else { 140 };
+    let ntx = if thorough { 1500 } else { 140 };
     let names = ["A", "B", "C"];
     for n in 0..ntx {
         let sched = match n % 4 {
